@@ -10,6 +10,9 @@
     labels [Step who] chosen by an adversarial scheduler, interleaved with the
     environment labels [Arrive t] (thread t starts calling register()),
     [Die t] (thread t ends) and [CloseCall] (somebody calls close()).
+    A thread whose next access is a LockAcquire is DISABLED while the lock is
+    held (its step is a no-op with output ODisabled); the scheduler may pick
+    any enabled thread at every step.
 
     The heap is a list of set objects with identity (index = address):
     [self._active] is a reference, [self._active - done] allocates a NEW
@@ -41,15 +44,18 @@ Inductive exn :=
 | ExSetChanged          (* RuntimeError: Set changed size during iteration *)
 | ExRegistered.         (* RuntimeError: close() called from a registered thread *)
 
-(** a registering thread: `register(self)` = LoadActive; SetAdd *)
+(** a registering thread: `register(self)` =
+    with self._lock: (LockAcquire) LoadActive; SetAdd (LockRelease) *)
 Inductive rst :=
 | RNone                 (* not started *)
-| RLoad                 (* in register(), before LOAD_ATTR _active *)
+| RAcq                  (* in register(), before `with self._lock` (BEFORE_WITH) *)
+| RLoad                 (* holds the lock, before LOAD_ATTR _active *)
 | RAdd (r : nat)        (* holds a reference to set object r, before CALL add *)
+| RRel                  (* before the __exit__ call that releases the lock *)
 | RIdle                 (* register() returned, thread alive *)
 | RDead.                (* thread ended *)
 
-(** the thread calling close() *)
+(** the thread calling close() (close() does not take the lock) *)
 Inductive cst :=
 | CNone
 | CLoad                 (* before LOAD_ATTR _active *)
@@ -59,25 +65,33 @@ Inductive cst :=
 | CJoining              (* blocked in join *)
 | CDone (e : option exn).
 
-(** the monitor thread; program counter = the next shared access of _monitor *)
+(** the monitor thread; program counter = the next shared access of _monitor
+    (offsets of the repaired thread.py, CPython 3.12) *)
 Inductive mpc :=
-| MLoadScan             (* 10  LOAD_ATTR _active     (set comprehension) *)
-| MGetIter (r : nat)    (* 30  GET_ITER *)
-| MIterNext             (* 40  FOR_ITER *)
-| MIsAlive (t : nat)    (* 68  CALL is_alive *)
-| MCallback             (* 158 CALL self._done(d) *)
-| MLoadRebuild          (* 174 LOAD_ATTR _active     (self._active - done) *)
-| MSetDiff (r : nat)    (* 196 BINARY_OP - *)
-| MStore (n : nat)      (* 202 STORE_ATTR _active *)
-| MLoadCheck            (* 276 LOAD_ATTR _active     (if self._active) *)
-| MTruth (r : nat)      (* 296 POP_JUMP_IF_FALSE on the set *)
-| MLoadClosed           (* 302 LOAD_ATTR _closed *)
+| MAcq1                 (* 30  BEFORE_WITH self._lock      (scan + rebuild) *)
+| MLoadScan             (* 36  LOAD_ATTR _active           (set comprehension) *)
+| MGetIter (r : nat)    (* 56  GET_ITER *)
+| MIterNext             (* 66  FOR_ITER *)
+| MIsAlive (t : nat)    (* 94  CALL is_alive *)
+| MLoadRebuild          (* 120 LOAD_ATTR _active           (self._active - done) *)
+| MSetDiff (r : nat)    (* 142 BINARY_OP - *)
+| MStore (n : nat)      (* 148 STORE_ATTR _active *)
+| MRel1                 (* 164 __exit__: release *)
+| MCallback             (* 234 CALL self._done(d) *)
+| MAcq2                 (* 332 BEFORE_WITH self._lock      (exit check) *)
+| MLoadCheck            (* 338 LOAD_ATTR _active *)
+| MTruth (r : nat)      (* 358 POP_JUMP_IF_TRUE on the set *)
+| MLoadClosed           (* 362 LOAD_ATTR _closed *)
+| MRelBreak             (* 392 __exit__: release, then break *)
+| MRelLoop              (* 410 __exit__: release, next iteration *)
+| MRelExc               (* 450 WITH_EXCEPT_START: release while an exception of the scan propagates *)
 | MExited (e : option exn).
 
 Record state := mkState {
   heap : list (list nat);      (* set objects *)
   active : nat;                (* self._active (a reference) *)
   closed : bool;               (* self._closed *)
+  lock : option who;           (* self._lock: the holder *)
   regs : nat -> rst;
   arrived : list nat;          (* threads that have started, newest first *)
   closer : cst;
@@ -91,7 +105,7 @@ Record state := mkState {
 }.
 
 Definition init : state :=
-  mkState [[]] 0 false (fun _ => RNone) [] CNone MLoadScan 0 0 [] [] [] [].
+  mkState [[]] 0 false None (fun _ => RNone) [] CNone MAcq1 0 0 [] [] [] [].
 
 Definition obj (h : list (list nat)) (r : nat) : list nat := nth r h [].
 
@@ -112,29 +126,36 @@ Inductive event :=
 | EvMonExit (e : option exn)           (* the monitor thread ended *)
 | EvCloseRet (e : option exn).         (* close() returned / raised *)
 
+(** ODisabled: the label is not enabled (thread not at a step, or waiting for the lock) *)
 Inductive out := ODisabled | OOk | OAcc (a : access) (evs : list event).
 
-Definition is_mid (r : rst) : bool := match r with RLoad | RAdd _ => true | _ => false end.
+Definition is_mid (r : rst) : bool := match r with RAcq | RLoad | RAdd _ | RRel => true | _ => false end.
 Definition is_alive (r : rst) : bool := match r with RDead => false | _ => true end.
 
 (** field updates *)
 Definition with_mon (s : state) pc itref itused todo done cbs exc : state :=
-  mkState (heap s) (active s) (closed s) (regs s) (arrived s) (closer s) pc itref itused todo done cbs exc.
+  mkState (heap s) (active s) (closed s) (lock s) (regs s) (arrived s) (closer s) pc itref itused todo done cbs exc.
 Definition with_pc (s : state) pc : state :=
   with_mon s pc (m_itref s) (m_itused s) (m_todo s) (m_done s) (m_cbs s) (m_exc s).
+Definition with_lock_pc (s : state) l pc : state :=
+  mkState (heap s) (active s) (closed s) l (regs s) (arrived s) (closer s)
+          pc (m_itref s) (m_itused s) (m_todo s) (m_done s) (m_cbs s) (m_exc s).
 Definition with_regs (s : state) f : state :=
-  mkState (heap s) (active s) (closed s) f (arrived s) (closer s)
+  mkState (heap s) (active s) (closed s) (lock s) f (arrived s) (closer s)
+          (m_pc s) (m_itref s) (m_itused s) (m_todo s) (m_done s) (m_cbs s) (m_exc s).
+Definition with_lock_regs (s : state) l f : state :=
+  mkState (heap s) (active s) (closed s) l f (arrived s) (closer s)
           (m_pc s) (m_itref s) (m_itused s) (m_todo s) (m_done s) (m_cbs s) (m_exc s).
 Definition with_closer (s : state) c : state :=
-  mkState (heap s) (active s) (closed s) (regs s) (arrived s) c
+  mkState (heap s) (active s) (closed s) (lock s) (regs s) (arrived s) c
           (m_pc s) (m_itref s) (m_itused s) (m_todo s) (m_done s) (m_cbs s) (m_exc s).
 
-(** the monitor thread ends with [e]: a close() blocked in join returns *)
-Definition mon_exit (s : state) (a : access) (e : option exn) (evs : list event) : state * out :=
-  let s' := with_pc s (MExited e) in
+(** the monitor thread releases the lock and ends with [e]: a close() blocked in join returns *)
+Definition mon_exit (s : state) (a : access) (e : option exn) : state * out :=
+  let s' := with_lock_pc s None (MExited e) in
   match closer s with
-  | CJoining => (with_closer s' (CDone e), OAcc a (evs ++ [EvMonExit e; EvCloseRet e]))
-  | _ => (s', OAcc a (evs ++ [EvMonExit e]))
+  | CJoining => (with_closer s' (CDone e), OAcc a [EvMonExit e; EvCloseRet e])
+  | _ => (s', OAcc a [EvMonExit e])
   end.
 
 (** which callbacks raise is a parameter of the run *)
@@ -144,6 +165,11 @@ Variable raises : nat -> bool.
 (** one shared access of [_monitor] *)
 Definition step_mon (s : state) : state * out :=
   match m_pc s with
+  | MAcq1 =>
+      match lock s with
+      | None => (with_lock_pc s (Some Mon) MLoadScan, OAcc LockAcquire [])
+      | Some _ => (s, ODisabled)                              (* blocked *)
+      end
   | MLoadScan => (with_pc s (MGetIter (active s)), OAcc LoadActive [])
   | MGetIter r =>
       (* iter(set): remembers the size; `done` is a fresh empty set *)
@@ -153,56 +179,70 @@ Definition step_mon (s : state) : state * out :=
         match m_todo s with
         | t :: rest =>
             (with_mon s (MIsAlive t) (m_itref s) (m_itused s) rest (m_done s) (m_cbs s) (m_exc s), OAcc IterNext [])
-        | [] =>
-            (* `if done := {...}:` ... `if self._done:` ... `for d in done:` *)
-            match m_done s with
-            | [] => (with_pc s MLoadCheck, OAcc IterNext [])
-            | _ => (with_mon s MCallback (m_itref s) (m_itused s) [] (m_done s) (m_done s) (m_exc s), OAcc IterNext [])
-            end
+        | [] => (with_pc s MLoadRebuild, OAcc IterNext [])
         end
-      else mon_exit s IterNext (Some ExSetChanged) []     (* uncaught: the thread dies *)
+      else (with_pc s MRelExc, OAcc IterNext [])   (* RuntimeError: Set changed size during iteration *)
   | MIsAlive t =>
       if is_alive (regs s t) then (with_pc s MIterNext, OAcc IsAlive [])
       else (with_mon s MIterNext (m_itref s) (m_itused s) (m_todo s) (ins t (m_done s)) (m_cbs s) (m_exc s), OAcc IsAlive [])
+  | MLoadRebuild => (with_pc s (MSetDiff (active s)), OAcc LoadActive [])
+  | MSetDiff r =>
+      (mkState (heap s ++ [diff (obj (heap s) r) (m_done s)]) (active s) (closed s) (lock s) (regs s) (arrived s) (closer s)
+               (MStore (length (heap s))) (m_itref s) (m_itused s) (m_todo s) (m_done s) (m_cbs s) (m_exc s),
+       OAcc SetDiff [])
+  | MStore n =>
+      (* from here on `done` is what `for d in done` will go through *)
+      (mkState (heap s) n (closed s) (lock s) (regs s) (arrived s) (closer s)
+               MRel1 (m_itref s) (m_itused s) (m_todo s) (m_done s) (m_done s) (m_exc s),
+       OAcc StoreActive [])
+  | MRel1 =>
+      (* `if self._done:` `for d in done:` *)
+      (with_lock_pc s None (match m_cbs s with [] => MAcq2 | _ => MCallback end), OAcc LockRelease [])
   | MCallback =>
       match m_cbs s with
       | d :: rest =>
           let exc := if raises d then m_exc s ++ [ExCb d] else m_exc s in
-          (with_mon s (match rest with [] => MLoadRebuild | _ => MCallback end)
+          (with_mon s (match rest with [] => MAcq2 | _ => MCallback end)
                     (m_itref s) (m_itused s) (m_todo s) (m_done s) rest exc,
            OAcc Callback [EvCb d (raises d)])
-      | [] => (with_pc s MLoadRebuild, OAcc Callback [])    (* unreachable *)
+      | [] => (with_pc s MAcq2, OAcc Callback [])    (* unreachable *)
       end
-  | MLoadRebuild => (with_pc s (MSetDiff (active s)), OAcc LoadActive [])
-  | MSetDiff r =>
-      (mkState (heap s ++ [diff (obj (heap s) r) (m_done s)]) (active s) (closed s) (regs s) (arrived s) (closer s)
-               (MStore (length (heap s))) (m_itref s) (m_itused s) (m_todo s) (m_done s) (m_cbs s) (m_exc s),
-       OAcc SetDiff [])
-  | MStore n =>
-      (mkState (heap s) n (closed s) (regs s) (arrived s) (closer s)
-               MLoadCheck (m_itref s) (m_itused s) (m_todo s) (m_done s) (m_cbs s) (m_exc s),
-       OAcc StoreActive [])
+  | MAcq2 =>
+      match lock s with
+      | None => (with_lock_pc s (Some Mon) MLoadCheck, OAcc LockAcquire [])
+      | Some _ => (s, ODisabled)
+      end
   | MLoadCheck => (with_pc s (MTruth (active s)), OAcc LoadActive [])
   | MTruth r =>
+      (* `if not self._active and self._closed: break` *)
       match obj (heap s) r with
       | [] => (with_pc s MLoadClosed, OAcc TruthActive [])
-      | _ => (with_pc s MLoadScan, OAcc TruthActive [])          (* continue *)
+      | _ => (with_pc s MRelLoop, OAcc TruthActive [])
       end
   | MLoadClosed =>
-      if closed s then mon_exit s LoadClosed (hd_error (m_exc s)) []   (* break; if exc: raise exc[0] *)
-      else (with_pc s MLoadScan, OAcc LoadClosed [])
+      if closed s then (with_pc s MRelBreak, OAcc LoadClosed [])
+      else (with_pc s MRelLoop, OAcc LoadClosed [])
+  | MRelLoop => (with_lock_pc s None MAcq1, OAcc LockRelease [])
+  | MRelBreak => mon_exit s LockRelease (hd_error (m_exc s))     (* break; if exc: raise exc[0] *)
+  | MRelExc => mon_exit s LockRelease (Some ExSetChanged)        (* uncaught: the thread dies *)
   | MExited _ => (s, ODisabled)
   end.
 
 (** one shared access of [register] in thread t *)
 Definition step_reg (s : state) (t : nat) : state * out :=
   match regs s t with
+  | RAcq =>
+      match lock s with
+      | None => (with_lock_regs s (Some (Reg t)) (set_reg (regs s) t RLoad), OAcc LockAcquire [])
+      | Some _ => (s, ODisabled)                              (* blocked *)
+      end
   | RLoad => (with_regs s (set_reg (regs s) t (RAdd (active s))), OAcc LoadActive [])
   | RAdd r =>
-      (mkState (upd (heap s) r (ins t (obj (heap s) r))) (active s) (closed s)
-               (set_reg (regs s) t RIdle) (arrived s) (closer s)
+      (mkState (upd (heap s) r (ins t (obj (heap s) r))) (active s) (closed s) (lock s)
+               (set_reg (regs s) t RRel) (arrived s) (closer s)
                (m_pc s) (m_itref s) (m_itused s) (m_todo s) (m_done s) (m_cbs s) (m_exc s),
-       OAcc SetAdd [EvRegistered t])
+       OAcc SetAdd [])
+  | RRel => (with_lock_regs s None (set_reg (regs s) t RIdle), OAcc LockRelease [EvRegistered t])
   | _ => (s, ODisabled)
   end.
 
@@ -212,7 +252,7 @@ Definition step_closer (s : state) : state * out :=
   | CLoad => (with_closer s (CContains (active s)), OAcc LoadActive [])
   | CContains r => (with_closer s CStore, OAcc Contains [])
   | CStore =>
-      (mkState (heap s) (active s) true (regs s) (arrived s) CJoin
+      (mkState (heap s) (active s) true (lock s) (regs s) (arrived s) CJoin
                (m_pc s) (m_itref s) (m_itused s) (m_todo s) (m_done s) (m_cbs s) (m_exc s),
        OAcc StoreClosed [])
   | CJoin =>
@@ -223,18 +263,20 @@ Definition step_closer (s : state) : state * out :=
   | _ => (s, ODisabled)
   end.
 
+(** No usage contract is built into the labels: a thread may start registering at any time
+    (even after close() was called) and close() may be called at any time (once). *)
 Definition step (s : state) (l : label) : state * out :=
   match l with
   | Step Mon => step_mon s
   | Step (Reg t) => step_reg s t
   | Step Closer => step_closer s
   | Arrive t =>
-      (* register() is called in the (new) thread t; not after close() was called *)
-      match regs s t, closer s with
-      | RNone, CNone =>
-          (mkState (heap s) (active s) (closed s) (set_reg (regs s) t RLoad) (t :: arrived s) (closer s)
+      (* register() is called in the (new) thread t *)
+      match regs s t with
+      | RNone =>
+          (mkState (heap s) (active s) (closed s) (lock s) (set_reg (regs s) t RAcq) (t :: arrived s) (closer s)
                    (m_pc s) (m_itref s) (m_itused s) (m_todo s) (m_done s) (m_cbs s) (m_exc s), OOk)
-      | _, _ => (s, ODisabled)
+      | _ => (s, ODisabled)
       end
   | Die t =>
       match regs s t with
@@ -242,10 +284,8 @@ Definition step (s : state) (l : label) : state * out :=
       | _ => (s, ODisabled)
       end
   | CloseCall =>
-      (* "to be called after all threads are registered" *)
       match closer s with
-      | CNone => if existsb (fun t => is_mid (regs s t)) (arrived s) then (s, ODisabled)
-                 else (with_closer s CLoad, OOk)
+      | CNone => (with_closer s CLoad, OOk)
       | _ => (s, ODisabled)
       end
   end.
@@ -261,41 +301,30 @@ Definition outs (ls : list label) : list out := snd (run_from init ls).
 (** the observable history of a run *)
 Definition history (ls : list label) : list (label * out) := combine ls (outs ls).
 
-(** "a registration overlaps a scan / rebuild / exit check": some thread is
-    inside register() while the monitor is between GET_ITER and the end of the
-    scan, between BINARY_OP - and STORE_ATTR _active, or between the truth
-    test of the (empty) set and LOAD_ATTR _closed *)
-Definition mon_critical (p : mpc) : bool :=
-  match p with MIterNext | MIsAlive _ | MSetDiff _ | MStore _ | MLoadClosed => true | _ => false end.
-Definition overlap (s : state) : bool :=
-  mon_critical (m_pc s) && existsb (fun t => is_mid (regs s t)) (arrived s).
-
-Fixpoint no_overlap_from (s : state) (ls : list label) : bool :=
-  negb (overlap s) &&
-  match ls with
-  | [] => true
-  | l :: r => no_overlap_from (fst (step s l)) r
-  end.
-Definition no_overlap (ls : list label) : bool := no_overlap_from init ls.
-
 End Step.
 
 (** ---- the programs above ARE the shared accesses of the generated skeleton *)
 Definition shared (a : access) : bool :=
   match a with LoadRO _ | Sleep => false | _ => true end.
 
-Definition register_prog : list access := [LoadActive; SetAdd].
+(** register: 48 54 96 112 (normal exit) 128 (WITH_EXCEPT_START: set.add cannot raise; no pc) *)
+Definition register_prog : list access := [LockAcquire; LoadActive; SetAdd; LockRelease; LockRelease].
 Definition close_prog : list access := [LoadActive; Contains; StoreClosed; Join].
+(** _monitor: ... 392 (break) 410 (loop) 450 (exception in the scan) 552 (WITH_EXCEPT_START of the
+    exit check: nothing in that block can raise; no pc) *)
 Definition monitor_prog : list access :=
-  [LoadActive; GetIter; IterNext; IsAlive; Callback; LoadActive; SetDiff; StoreActive;
-   LoadActive; TruthActive; LoadClosed].
+  [LockAcquire; LoadActive; GetIter; IterNext; IsAlive; LoadActive; SetDiff; StoreActive; LockRelease;
+   Callback; LockAcquire; LoadActive; TruthActive; LoadClosed; LockRelease; LockRelease; LockRelease; LockRelease].
 
 (** the access performed at each program counter, in skeleton order *)
 Definition mpc_access (p : mpc) : option access :=
   match p with
-  | MLoadScan => Some LoadActive | MGetIter _ => Some GetIter | MIterNext => Some IterNext
-  | MIsAlive _ => Some IsAlive | MCallback => Some Callback | MLoadRebuild => Some LoadActive
-  | MSetDiff _ => Some SetDiff | MStore _ => Some StoreActive | MLoadCheck => Some LoadActive
+  | MAcq1 | MAcq2 => Some LockAcquire
+  | MLoadScan | MLoadRebuild | MLoadCheck => Some LoadActive
+  | MGetIter _ => Some GetIter | MIterNext => Some IterNext
+  | MIsAlive _ => Some IsAlive | MCallback => Some Callback
+  | MSetDiff _ => Some SetDiff | MStore _ => Some StoreActive
+  | MRel1 | MRelBreak | MRelLoop | MRelExc => Some LockRelease
   | MTruth _ => Some TruthActive | MLoadClosed => Some LoadClosed | MExited _ => None
   end.
 
